@@ -5,12 +5,12 @@ import _harbor
 
 META = dict(
     category="model_checking",
-    technique="explicit TLA+ spec (Harbor/VaultSpec) + TLC trace validation of recorded real-code behaviours and bounded implementation exploration; vault handlers predicted by the spec (conformance)",
-    text='TLC evaluates on recorded real steps: supply change <= change of recorded principal (equality when no auction settles), every successful mint delivers minted - floor(minted*fee) to the user and the fee to the collector and equals the recorded principal change, burns equal the principal retired, interest/fee steps never mint; across 6 decimal-scale configurations x 4 fee settings (stable-mint conversion included).',
-    note="Bounded: 3 users, 4 products (two sharing a collateral denom, one stable-mint), small amounts (TLC 32-bit), decimals 1/10/100, oracle-priced debt; interest amounts are environment values taken from the log; V1 liquidation/auction generation and emergency shutdown are not driven by this family. Trusted: projection functions, TLC, bank module.",
+    technique="explicit TLA+ spec (Harbor/VaultSpec/DutchV1) + TLC trace validation of recorded real-code behaviours and bounded implementation exploration; vault handlers predicted by the spec (conformance)",
+    text='TLC evaluates on recorded real steps: supply change <= change of recorded principal (equality when no auction settles), every successful mint delivers minted - floor(minted*fee) to the user and the fee to the collector and equals the recorded principal change, burns equal the principal retired (also at the close of a V1 Dutch auction: burn = LockedVault.AmountOut), interest/fee steps never mint; the backing includes the debt registered for emergency redemption (x/esm redemption book: vault and stable-vault principal moved there after the cool-off, reduced by the collector burn and by every redemption); across 6 decimal-scale configurations x 4 fee settings (stable-mint conversion included).',
+    note="Bounded: 3 users, 4 products (two sharing a collateral denom, one stable-mint), small amounts (TLC 32-bit), decimals 1/10/100, oracle-priced debt; interest amounts are environment values taken from the log; both liquidation/auction generations are driven (V2 through blocks and messages; V1 - x/liquidation, x/auction - through MsgLiquidateVault / MsgPlaceDutchBid and, because module.go does not wire its begin blockers, through direct calls of the exported BeginBlockers as environment actions V1Sweep / V1Tick); emergency shutdown is driven too (rarely in ordinary runs, headed for in every sixth run, and in a bounded exploration of the shutdown flows: MsgDepositESM / MsgExecuteESM, the esm begin blocker with price snapshot and redemption set-up after the cool-off, MsgCollateralRedemption, withdrawals in the cool-off, V2 TriggerEsm and the V1 shutdown close-out). Trusted: projection functions, TLC, bank module.",
     design_ref='4 C02',
 )
 
 
 def run(c):
-    return _harbor.run(c, ['okMints', 'okBurns', 'closingBids'])
+    return _harbor.run(c, ['okMints', 'okBurns', 'closingBids', 'v1Seizures', 'v1Closes', 'esmVaultRedemptions', 'esmCollectorBurns', 'esmRedemptions'])
